@@ -527,12 +527,23 @@ func Exec(p *Program, io *StageIO) (*StageResult, error) {
 		// stage writes under its own files directory.  Top-level file outputs
 		// use the path mrp pre-populated in _outs.
 		n := argOf(io, "n").Int()
+		sparse := int64(-1)
+		if n >= 200 {
+			// a mapped producer whose forks leave complementary outputs
+			// null: even forks write no g, odd forks no f
+			n -= 200
+			sparse = n % 2
+		}
 		if n >= 10 {
 			// elements of GEN.arr (a mapped producer over a run-time array)
 			n = n%10 + 1
 		}
 		pad := 100
 		for _, o := range st.Outs {
+			if (sparse == 0 && o.Name == "g") || (sparse == 1 && o.Name == "f") {
+				outs[o.Name] = Null()
+				continue
+			}
 			if io.OutsTemplate != nil && io.OutsTemplate.K == VObj {
 				if tv := io.OutsTemplate.O[o.Name]; tv != nil && tv.K == VStr && (o.T.K == TFiletype || o.T.K == TFile) && argOf(io, "mode").Int() == 0 {
 					pad += 13
